@@ -143,16 +143,41 @@ def ancestors_closure(nodes, targets):
     return seen
 
 
-def input_spec(nodes, bound=None, select=None, entry=None, drop=()):
-    """Reference input classification for gate-free acyclic programs: (required, optional) as sets."""
+def _closure(nodes, roots, forward, ordering):
+    """Reachability over data edges and, optionally, ordering (wait_for) edges."""
+    prod = producers(nodes)
+    emit = {o: n["name"] for n in nodes for o in n.get("emit", [])}
+    edges = {n["name"]: set() for n in nodes}
+    for n in nodes:
+        srcs = {prod[p]["name"] for p in n.get("params", []) if p in prod}
+        if ordering:
+            srcs |= {(prod[w]["name"] if w in prod else emit[w]) for w in n.get("wait_for", []) if w in prod or w in emit}
+        for s_ in srcs:
+            if forward:
+                edges[s_].add(n["name"])
+            else:
+                edges[n["name"]].add(s_)
+    seen, stack = set(roots), list(roots)
+    while stack:
+        x = stack.pop()
+        for y in edges[x]:
+            if y not in seen:
+                seen.add(y)
+                stack.append(y)
+    return seen
+
+
+def input_spec(nodes, bound=None, select=None, entry=None, drop=(), ordering=False):
+    """Reference input classification for gate-free acyclic programs: (required, optional) as sets.
+    ordering=True: a node that waits for a name is downstream of that name's producer (for scoping by select / entry points)."""
     bound = bound or {}
     prod = producers(nodes)
     active = {n["name"] for n in nodes} - set(drop)
     if entry is not None:
-        active = descendants(nodes, entry)
+        active = _closure(nodes, entry, True, ordering) if ordering else descendants(nodes, entry)
     if select is not None:
         sel_prod = {prod[o]["name"] for o in select if o in prod and prod[o]["name"] in active}
-        back = ancestors_closure(nodes, sel_prod) if sel_prod else set()
+        back = (_closure(nodes, sel_prod, False, ordering) if ordering else ancestors_closure(nodes, sel_prod)) if sel_prod else set()
         active = active & back
     act = [n for n in nodes if n["name"] in active]
     edge_produced = set()
